@@ -137,6 +137,37 @@ def main():
         for o in objs:
             o["factory"] = fac
         cases.append(case(objs, evs, rels, kind=kind, bad=bad, skip=["evaluate.viol", "update.viol"], timeout=3))
+    # ---- dense time: the same durations in different notations, default unit s / ms, stamps in the default unit
+    dcases = []
+    for i in range(n // 3):
+        ops = ["not", "and", "or", "onceT", "histT", "evT", "alwT", "sinceT", "untilT", "once"]
+        g = Gen(rng, vars_=("x", "y"), S=1, ops=ops, ivs=[(0, 1), (1, 2), (0, 2), (2, 2), (1, 3)], bool_atoms=True)
+        for _ in range(40):
+            phi = g.formula(rng.choice([1, 2, 2]))
+            if (ops_of(phi) & TIMED) and vars_of(phi):
+                break
+        else:
+            continue
+        vs = vars_of(phi)
+        default = rng.choice(["s", "ms", "s"])
+        unit_ns = 10 ** E[default]
+        K = rng.choice([2, 3])
+        objs = []
+        for k in range(K):
+            written, styles = write_ast(rng, phi, unit_ns, default)
+            o = ct_obj(phi, 1, vs, text="out = " + to_text(written, 1), written=written,
+                       units={"def": default, "pnum": 1, "pden": 1, "punit": default}, unit=default, styles=styles,
+                       factory=rng.choice(["StlDenseTimeSpecification", "StlDenseTimeOfflineSpecification"]))
+            objs.append(o)
+        end = rng.choice([4, 6, 8])
+        w = {v: gen_signal(rng, rng.choice([2, 3, 4, 5]), t0=0, end=end) for v in vs}
+        evs = [ev_parse(k + 1) for k in range(K)] + [ev_ct("evaluate", w, k + 1) for k in range(K)]
+        rels = [{"rel": "same_fn", "x": 1, "y": k + 1} for k in range(1, K)]
+        dcases.append(case(objs, evs, rels, kind="dense", bad=False, timeout=3))
+    dtr = runner.run_cases(dcases)
+    dvs, dgen, ddist = core.validate("C08_dense", dtr, module="TraceCt")
+    rep.add_traces(dtr, dvs, dgen, ddist, nontrivial_key=lambda c: str([o["text"] for o in c["objs"]]) + str(c["events"][-1]["w"]))
+    rep.extra["dense_cases"] = len(dcases)
     traces = runner.run_cases(cases)
     vs_, gen, dist = core.validate("C08", traces)
     rep.add_traces(traces, vs_, gen, dist, nontrivial_key=lambda c: str([o["text"] for o in c["objs"]]) + str(c["events"][-1].get("w", c["events"][-1].get("s"))))
